@@ -101,7 +101,7 @@ static void finish_member(Rng &rng, Member &m, const std::string &path, const st
 	encode_names(m, path, name_field);
 	encode_unix_meta(m, perms, uid, gid, mt, o.tzoff, m.level >= 2 && rng.chance(1, 6) && mt != 0);
 	if (m.level == 0 && have_unix && mt == 0) m.time = 0;
-	if (m.level >= 2 && rng.chance(1, 2)) {
+	if ((m.level >= 2 && rng.chance(1, 2)) || (m.level == 1 && rng.chance(1, 3))) {
 		ExtHdr e; e.type = 0x00; e.data = {0, 0}; e.auto_crc = true;
 		if (rng.chance(1, 4)) e.data.push_back(rng.byte());
 		m.ext.insert(m.ext.begin() + (long) rng.below(m.ext.size() + 1), e);
@@ -380,7 +380,9 @@ std::string gen_patch(Rng &rng, const Plan &p, const BuiltArchive &a, Patch &q, 
 		for (size_t i = 0; i < f.len && i < 8; ++i) cur |= (uint64_t) a.bytes[L.start + f.off + i] << (8 * i);
 		uint64_t maxv = f.len >= 8 ? ~0ULL : ((1ULL << (8 * f.len)) - 1);
 		uint64_t nv;
-		switch (rng.below(9)) {
+		switch (rng.below(11)) {
+			case 9: nv = rng.below(8); break;            // small absolute values: sizes that equal their own length field
+			case 10: nv = cur + 3 + rng.below(3); break;
 			case 0: nv = 0; break;
 			case 1: nv = maxv; break;
 			case 2: nv = cur + 1; break;
